@@ -257,3 +257,25 @@ Theorem runtime_spec prom s :
   rt_proc s = sum_total (sc_status s) /\ sum_series (sc_status s) <= rt_head prom s /\ prom <= rt_head prom s /\
   (rt_head prom s = prom \/ rt_head prom s = sum_series (sc_status s)).
 Proof. unfold rt_proc, rt_head. repeat split; lia. Qed.
+
+(* ---- /samples/: what the endpoint serves per job adds up, and is the last-scrape statistics of the job's targets ---- *)
+Lemma insert_samp_in x t l : In x (insert_samp t l) -> x = t \/ In x l.
+Proof.
+  induction l as [|y r IH]; cbn; [intros [H|[]]; auto|].
+  destruct (sm_job t <=? sm_job y)%N; cbn; [intros [H|H]; auto|]. intros [H|H]; [auto|]. destruct (IH H); auto.
+Qed.
+Lemma model_samples_in s m : In m (model_samples s) ->
+  exists jt, In jt (sc_targets s) /\ m = samples_of_job (sc_status s) (fst jt) (snd jt).
+Proof.
+  unfold model_samples. induction (sc_targets s) as [|jt r IH]; cbn; [intros []|].
+  intros H. apply insert_samp_in in H. destruct H as [->|H]; [exists jt; auto|]. destruct (IH H) as [jt' [A B]]. exists jt'. auto.
+Qed.
+Theorem samples_add_up s m : In m (model_samples s) ->
+  sm_scraped m = fst (sm_keep m) + fst (sm_drop m) /\ fst (sm_keep m) = snd (sm_keep m) /\ fst (sm_drop m) = 0.
+Proof.
+  intros H. destruct (model_samples_in s m H) as [jt [_ ->]]. unfold samples_of_job. cbn. lia.
+Qed.
+(* a failed scrape empties the target's contribution, a whole payload replaces it (also when a stop reason is set) *)
+Theorem last_stats_after_scrape st r stopped :
+  ss_last (scrape_status st r stopped) = match r with ScrOk kept all => Some (kept, all) | ScrFail => None end.
+Proof. destruct r; reflexivity. Qed.
